@@ -730,3 +730,101 @@ Qed.
 (* at most one holder at any instant *)
 Theorem holder_unique E d k t1 t2 now s : held_by E d k t1 now s -> held_by E d k t2 now s -> t1 = t2.
 Proof. intros (e1 & H1 & <-) (e2 & H2 & <-). congruence. Qed.
+
+(* ---------------------------------------------------------------- losing members (C02) --------- *)
+
+(* the members in F stop: their copies are gone *)
+Definition crash (F : list nat) (s : state) : state :=
+  filter (fun p => negb (existsb (Nat.eqb (lm (fst p))) F)) s.
+
+Lemma lookup_crash F l s : lookup l (crash F s) = if existsb (Nat.eqb (lm l)) F then None else lookup l s.
+Proof.
+  unfold crash. induction s as [|[x e] s IH]; cbn; [now destruct (existsb _ F)|].
+  destruct (existsb (Nat.eqb (lm x)) F) eqn:Ex; cbn.
+  - rewrite IH. destruct (loc_eqb l x) eqn:El; [|reflexivity]. apply loc_eqb_eq in El. subst x. now rewrite Ex.
+  - rewrite IH. destruct (loc_eqb l x) eqn:El; [|reflexivity]. apply loc_eqb_eq in El. subst x. now rewrite Ex.
+Qed.
+
+(* every copy of a key carries the same content in a state that satisfies the mirror invariant *)
+Lemma all_copies_agree E s d k l e p :
+  Inv E s -> lookup (ploc E d k) s = Some p -> ld l = d -> lkey l = k -> lookup l s = Some e -> content e = content p.
+Proof. intros HI Hp Hd Hk Hl. eapply (single_copy_reads_agree E s d k l (ploc E d k)); eauto. Qed.
+
+(* After the loss of any set F of members: if the routing in force afterwards (E') still reaches one surviving
+   holder of the key, a read returns exactly the content that was acknowledged last (all copies carried it) - never
+   an older value; and a key that was deleted (no copy anywhere) stays not-found. *)
+Theorem survives_crash E E' F s d k now p l e :
+  Inv E s -> no_idle E' ->
+  lookup (ploc E d k) s = Some p ->                                   (* the key was present: p is its acknowledged content *)
+  ld l = d -> lkey l = k -> lookup l (crash F s) = Some e ->          (* l is a holder that survived *)
+  (l = ploc E' d k \/ exists b, In b (backups E' d k) /\ l = bloc b d k) ->   (* the new routing reaches it *)
+  option_map content (get_entry E' d k now (crash F s)) = if visible p now then Some (content p) else None.
+Proof.
+  intros HI Hi Hp Hd Hk Hl Hreach.
+  assert (Hc : forall x, In x (gather E' d k (crash F s)) -> content x = content p).
+  { intros x Hx. unfold gather in Hx. apply in_app_or in Hx as [Hx|Hx].
+    - destruct (lookup (ploc E' d k) (crash F s)) as [y|] eqn:Ey; [|contradiction]. destruct Hx as [<-|[]].
+      rewrite lookup_crash in Ey. destruct (existsb _ F); [discriminate|].
+      eapply (all_copies_agree E s d k (ploc E' d k)); eauto.
+    - apply in_flat_map in Hx as (b & Hb & Hx). destruct (lookup (bloc b d k) (crash F s)) as [y|] eqn:Ey; [|contradiction].
+      destruct Hx as [<-|[]]. rewrite lookup_crash in Ey. destruct (existsb _ F); [discriminate|].
+      eapply (all_copies_agree E s d k (bloc b d k)); eauto. }
+  assert (Hne : gather E' d k (crash F s) <> []).
+  { unfold gather. destruct Hreach as [->|(b & Hb & ->)].
+    - rewrite Hl. discriminate.
+    - intros Hnil. apply app_eq_nil in Hnil as [_ Hnil].
+      assert (In e (flat_map (fun b0 => match lookup (bloc b0 d k) (crash F s) with Some x => [x] | None => [] end) (backups E' d k))).
+      { apply in_flat_map. exists b. split; [exact Hb|]. rewrite Hl. now left. }
+      rewrite Hnil in H. contradiction. }
+  unfold get_entry, newest. destruct (fold_left _ (gather E' d k (crash F s)) None) as [r|] eqn:Hr.
+  - assert (Cr : content r = content p) by (eapply newest_same_content; [exact Hc| |exact Hr]; discriminate).
+    assert (Hid : (match lookup (ploc E' d k) (crash F s) with Some q => idle E' d q now | None => false end) = false).
+    { destruct (lookup (ploc E' d k) (crash F s)); [|reflexivity]. unfold idle. now rewrite Hi. }
+    rewrite Hid, andb_true_r. assert (Hv : visible r now = visible p now) by (unfold visible; unfold content in Cr; congruence).
+    rewrite Hv. destruct (visible p now); cbn; congruence.
+  - exfalso. revert Hr. apply newest_nonempty. left. exact Hne.
+Qed.
+
+Theorem deleted_stays_deleted E E' F s d k now :
+  Inv E s -> lookup (ploc E d k) s = None -> get_entry E' d k now (crash F s) = None.
+Proof.
+  intros [Hm Hp] Hn.
+  assert (Hall : forall l, ld l = d -> lkey l = k -> lookup l s = None).
+  { intros l Hd Hk. destruct (lookup l s) as [e|] eqn:El; [|reflexivity]. exfalso.
+    pose proof (Hp _ _ El) as Hh. rewrite Hd, Hk in Hh. unfold holder in Hh. apply orb_true_iff in Hh as [Hh|Hh].
+    - apply loc_eqb_eq in Hh. subst l. congruence.
+    - apply existsb_exists in Hh as (b & Hb & Hh). apply loc_eqb_eq in Hh. subst l.
+      pose proof (Hm _ _ _ Hb) as Hmb. rewrite Hn, El in Hmb. discriminate. }
+  unfold get_entry, gather. rewrite lookup_crash, (Hall (ploc E' d k) eq_refl eq_refl).
+  destruct (existsb _ F); cbn;
+  (assert (G : forall bs, flat_map (fun b => match lookup (bloc b d k) (crash F s) with Some e => [e] | None => [] end) bs = []);
+   [induction bs as [|b bs IH]; cbn; [reflexivity|]; rewrite lookup_crash, (Hall (bloc b d k) eq_refl eq_refl); destruct (existsb _ F); exact IH|];
+   now rewrite G).
+Qed.
+
+Lemma filter_len_le {A} (f : A -> bool) (l : list A) : (length (filter f l) <= length l)%nat.
+Proof. induction l as [|x l IH]; cbn; [lia|]. destruct (f x); cbn; lia. Qed.
+
+(* with R holders on R distinct members, any F of at most R-1 members misses one of them *)
+Lemma some_holder_survives (holders F : list nat) :
+  NoDup holders -> (length F < length holders)%nat -> exists h, In h holders /\ existsb (Nat.eqb h) F = false.
+Proof.
+  revert F. induction holders as [|h hs IH]; intros F Hnd Hlen; [cbn in Hlen; lia|].
+  inversion Hnd as [|? ? Hnin Hnd']; subst.
+  destruct (existsb (Nat.eqb h) F) eqn:Eh; [|exists h; split; [now left|exact Eh]].
+  (* h is in F: remove it from F and recurse *)
+  destruct (IH (filter (fun x => negb (Nat.eqb h x)) F) Hnd') as (x & Hx & Hex).
+  - cbn in Hlen. apply existsb_exists in Eh as (y & Hy & Ey). apply Nat.eqb_eq in Ey. subst y.
+    assert (Hl : (length (filter (fun x => negb (Nat.eqb h x)) F) < length F)%nat).
+    { clear - Hy. induction F as [|z F IHF]; [contradiction|]. cbn. destruct Hy as [->|Hy].
+      - rewrite Nat.eqb_refl. cbn. pose proof (filter_len_le (fun x => negb (Nat.eqb h x)) F). lia.
+      - specialize (IHF Hy). destruct (negb (Nat.eqb h z)); cbn; lia. }
+    lia.
+  - exists x. split; [now right|].
+    destruct (existsb (Nat.eqb x) F) eqn:Ex; [|reflexivity]. exfalso.
+    apply existsb_exists in Ex as (y & Hy & Ey). apply Nat.eqb_eq in Ey. subst y.
+    assert (Hne : x <> h) by (intros ->; contradiction).
+    assert (existsb (Nat.eqb x) (filter (fun z => negb (Nat.eqb h z)) F) = true); [|congruence].
+    apply existsb_exists. exists x. split; [|apply Nat.eqb_refl]. apply filter_In. split; [exact Hy|].
+    apply negb_true_iff, Nat.eqb_neq. congruence.
+Qed.
